@@ -157,6 +157,11 @@ func planScreen(rng *rand.Rand, nops int, w, h int, mix string, rich bool, hasCa
 			St: tcx.RandStyle(rng, rich, true)}
 	}
 	var last []sop
+	if mix != "legacy" && rng.Intn(3) == 0 {
+		// frames over cells that were never given any content: the first paints them, the second has nothing to do
+		add(sop{Op: "Show"})
+		add(sop{Op: "Show"})
+	}
 	for i := 0; i < nops; i++ {
 		k := rng.Intn(100)
 		if mix == "legacy" && running && k >= 92 {
@@ -313,6 +318,10 @@ func planScreen(rng *rand.Rand, nops int, w, h int, mix string, rich bool, hasCa
 				nw, nh = cw, ch
 			}
 			add(sop{Op: "WinSize", W: nw, H: nh, B: rng.Intn(2) == 0})
+			if (nw > cw || nh > ch) && rng.Intn(2) == 0 { // cells added by the grow, never written: two frames
+				add(sop{Op: "Show"})
+				add(sop{Op: "Show"})
+			}
 			cw, ch = nw, nh
 		case k < 90:
 			add(sop{Op: "Corrupt", X: rng.Intn(cw), Y: rng.Intn(ch), N: rng.Intn(1 << 16)})
